@@ -9,7 +9,7 @@ from typing import Dict, List, Optional, Tuple
 from sa.canon import canon
 from sa.peval import peval
 from sa.report import Ctx
-from sa.sym import FALSE, NONE, NOT, Summary, bind_args, conjuncts, show, subst, walk
+from sa.sym import callkw, FALSE, NONE, NOT, Summary, bind_args, conjuncts, show, subst, walk
 
 CW = "soundevent.io.crowsetta"
 SEG, BBOX, SEQ, ANN, LAB = (f"{CW}.{m}" for m in ("segment", "bbox", "sequence", "annotation", "labels"))
@@ -101,7 +101,7 @@ class C10:
             if len(ctor) != 1:
                 ctx.undec("R10.1", site, f"data.{geom_cls}(...) construction not found")
                 continue
-            coords = dict(ctor[0][3]).get("coordinates")
+            coords = callkw(ctor[0]).get("coordinates")
             if coords is None or coords[0] != "list":
                 ctx.undec("R10.1", site, "coordinates are not a literal list")
                 continue
@@ -242,7 +242,7 @@ class C10:
                 ctx.ok("R10.2", site, "interval from the event's geometry, cast flag forwarded")
             else:
                 ctx.bad("R10.2", file, "segment_from_annotation", f"convert_geometry_to_interval({show(conv[0])[:60]})", "geometry / cast flag not forwarded", s.node.lineno)
-            kw = dict(mk[0][3])
+            kw = callkw(mk[0])
             st, en = ("sub", conv[0], ("const", 0)), ("sub", conv[0], ("const", 1))
             sr = ("attr", ("attr", se, "recording"), "samplerate")
             ts = ctx.summ.of_func(SEG, "convert_time_to_sample")
@@ -298,7 +298,7 @@ class C10:
                 ctx.ok("R10.2", site, "box from the event's geometry, both switches forwarded")
             else:
                 ctx.bad("R10.2", file, "bbox_from_annotation", f"convert_geometry_to_bbox({show(conv[0])[:70]})", "geometry / switches not forwarded under their own names", s.node.lineno)
-            kw = dict(mk[0][3])
+            kw = callkw(mk[0])
             B = [("sub", conv[0], ("const", i)) for i in range(4)]
             nyq = ("bin", "/", ("attr", ("attr", se, "recording"), "samplerate"), ("const", 2))
             wants = {"onset": B[0], "offset": B[2], "low_freq": B[1], "high_freq": ("call", ("builtin", "min"), (B[3], nyq), ())}
